@@ -23,7 +23,9 @@ def poison_body(k, kind):
     if kind == 0:
         return ["0 = N 0 0", "0 = N 5 0"]                       # forced first note
     if kind == 1:
-        return ["900 = N 0 0", "100 = N 1 0"]                   # ticks running backwards across tempo changes
+        # ticks running backwards across tempo changes - back to a tick that is the first note tick of ANOTHER section of
+        # the same chart (whatever that section made the tempo map remember must not decide whether this one is rejected)
+        return ["900 = N 0 0", f"{10 * ((3 * k) % 8 + 1)} = N 1 0"]
     if kind == 2:
         return ["900 = E solo", "10 = E soloend", "5 = N 0 0", "5 = N 5 0"]
     # odd but harmless content (unparsable lines are skipped): it must not matter either, selected or not - a skipped verdict
@@ -86,6 +88,8 @@ def record_from_texts(cid, text, ref_text, present, poison, want, form="list"):
         if form == "tuple":
             w = tuple(w)
     kind, val = outcome(text, w)
+    uk, uval = outcome(text, None)          # the unrestricted parse of the SAME file (it may fail: a poison body is parsed then)
+    ud = _track_digests(uval) if uk == "chart" else {}
     rk, ref = outcome(ref_text, None)
     if rk != "chart":
         raise RuntimeError("reference parse failed: " + repr(ref))
@@ -94,13 +98,13 @@ def record_from_texts(cid, text, ref_text, present, poison, want, form="list"):
     rec = {"id": cid, "props": ["C13"], "present": list(present), "poison": sorted(poison),
            "want": ["none"] if want is None else ["some", list(want)],
            "outcome": "chart" if kind == "chart" else type(val).__name__, "tr": [],
-           "meta": "", "sync": "", "glob": "",
+           "meta": "", "sync": "", "glob": "", "uout": "chart" if uk == "chart" else type(uval).__name__,
            "metaref": observe.digest(ro["meta"]), "syncref": observe.digest(ro["sync"]), "globref": observe.digest(ro["global"])}
     if kind == "chart":
         o = observe.obs_chart(val)
         rec["meta"], rec["sync"], rec["glob"] = observe.digest(o["meta"]), observe.digest(o["sync"]), observe.digest(o["global"])
         for h, d in _track_digests(val).items():
-            rec["tr"].append({"h": h, "d": d, "ref": refd.get(h, "absent-in-unrestricted-parse")})
+            rec["tr"].append({"h": h, "d": d, "ref": refd.get(h, "absent-in-unrestricted-parse"), "u": ud.get(h, "")})
     rec["ref_text"], rec["form"] = ref_text, form
     return rec, text
 
@@ -158,6 +162,26 @@ def run(ctx):
         texts[rec["id"]] = text
         ctx.evaluations += 1
         ctx.distinct([present, sorted(poison), want])
+    # directed: a section B whose lines run backwards across a tempo change - back to a tick that another section A of the
+    # same file also uses (as a note tick, a sustain end, a phrase tick, a track-event tick) - with A before / after B, and B
+    # selected alone, with A, or with no selection: whether B is rejected must not depend on A
+    k = 0
+    for a_h, b_h in (("ExpertSingle", "HardSingle"), ("EasyDrums", "ExpertDrums"), ("MediumKeyboard", "ExpertGHLBass")):
+        for j in range(4):
+            a_body = benign_body(j)
+            t0 = 10 * (j + 1)
+            for back in (t0, t0 + 300, t0 + 500, t0 + 900, t0 + 450):
+                b_body = ["900 = N 0 0", f"{back} = N 1 0"]
+                for order in ([a_h, b_h], [b_h, a_h]):
+                    for want in (None, [b_h], [a_h, b_h], [b_h, a_h]):
+                        bodies = {a_h: a_body, b_h: b_body}
+                        ref_bodies = {a_h: a_body, b_h: benign_body(j + 1, variant=5)}
+                        text, ref_text = build(order, bodies), build(order, ref_bodies)
+                        rec, text = record_from_texts(f"dir{k}", text, ref_text, order, {b_h}, want, forms[k % 3])
+                        recs.append(rec)
+                        texts[rec["id"]] = text
+                        k += 1
+                        ctx.evaluations += 1
     by_id = {x["id"]: x for x in recs}
     for rid, p, clause in ctx.validate(recs):
         rec = by_id[rid]
